@@ -56,12 +56,12 @@ def subset_order(sim, names, keep_bias):
     return out[:n]
 
 
-def configure_side(sim, t, cheap_kex):
+def configure_side(sim, t, cheap_kex, keep_gex=False):
     conf = {}
     disabled = {}
     for cat, names in CATS.items():
         if cat == "kex" and cheap_kex:
-            names = tuple(n for n in names if "group14" not in n and "exchange" not in n)
+            names = tuple(n for n in names if "group14" not in n and ("exchange" not in n or keep_gex))
         lst = subset_order(sim, names, 0.5)
         setattr(t.get_security_options(), OPT[cat], lst)
         # disable a few (possibly listed) names through the constructor-level mechanism
@@ -114,8 +114,20 @@ def scenario(sim):
     p = ssh.tapped_pair(sim, link=link, host_keys=tuple(hks),
                         client_kw={"strict_kex": strict_c}, server_kw={"strict_kex": strict_s}, **pkw)
     cheap = sim.choose(4) != 0
-    cc = configure_side(sim, p.tc, cheap)
-    sc = configure_side(sim, p.ts, cheap)
+    # a server that was never given a file of primes (load_server_moduli not called) cannot do group exchange: what
+    # it advertises and what it is prepared to select must still be the same list
+    no_moduli = sim.choose(4) == 0 and adversary != "server"     # (the judged side only; junk names do not survive the pruning)
+    if no_moduli:
+        p.ts._modulus_pack = None
+        sim.probe("server_without_moduli")
+    cc = configure_side(sim, p.tc, cheap, keep_gex=no_moduli)
+    sc = configure_side(sim, p.ts, cheap, keep_gex=no_moduli)
+    if no_moduli and all("exchange" in k for k in sc["kex"]):
+        # a server that can do nothing but group exchange and has no primes cannot run at all: not a negotiation case
+        sc["kex"] = sc["kex"] + ["curve25519-sha256@libssh.org"]
+        p.ts.get_security_options().kex = sc["kex"]
+        sc["disabled"]["kex"] = [k for k in sc["disabled"].get("kex", []) if k != "curve25519-sha256@libssh.org"]
+        p.ts.disabled_algorithms = sc["disabled"]
     if adversary is not None:
         t = p.tc if adversary == "client" else p.ts
         junk = ["made-up-kex@example.com", "ext-info-s", "ext-info-c", "kex-strict-s-v00@openssh.com",
@@ -131,7 +143,7 @@ def scenario(sim):
                 l2.insert(sim.choose(len(l2) + 1), "unknown-%s@example.com" % cat)
                 setattr(t, attr, tuple(l2))
     desc = {"client": cc, "server": sc, "hostkeys": hks, "strict": [strict_c, strict_s], "adversary": adversary,
-            "asymmetric_lists": asym}
+            "asymmetric_lists": asym, "server_has_moduli": not no_moduli}
     exc_c = None
     try:
         p.start(timeout=60)
@@ -207,6 +219,56 @@ def scenario(sim):
                     if got[k] in dis.get(cat, ()):
                         raise Violation(("C05", "disabled-algorithm-selected", name, cat),
                                         "%s agreed on %s=%r which it had disabled" % (name, k, got[k]), desc)
+    if ref is not None and adversary is None and sim.choose(3) == 0 and p.tc.is_active() and p.ts.is_active():
+        rekey_with_new_order(sim, p, link, desc, cc, sc)
     p.close()
     return {"sample": desc, "nontrivial": True,
             "counts": ["compatible" if ref else "incompatible", "adversary:%s" % adversary]}
+
+
+def rekey_with_new_order(sim, p, link, desc, cc, sc):
+    """The preferences are put into another order (same names, so still compatible) and the keys are exchanged again:
+    the second negotiation is decided by the second pair of KEXINITs alone, not by what the first one chose."""
+    for t, conf in ((p.tc, cc), (p.ts, sc)):
+        for cat in CATS:
+            lst = list(getattr(t.get_security_options(), OPT[cat]))
+            out = []
+            while lst:
+                out.append(lst.pop(sim.choose(len(lst))))
+            setattr(t.get_security_options(), OPT[cat], out)
+            conf[cat] = out
+    try:
+        p.auth_password()
+        (p.tc, p.ts)[sim.choose(2)].renegotiate_keys()
+    except Exception as e:
+        raise Violation(("C05", "rekey-failed", type(e).__name__),
+                        "re-key after reordering the preferences failed: %r / client %r / server %r"
+                        % (e, p.tc.get_exception(), p.ts.get_exception()), desc)
+    ssh.quiesce(sim, [link], (), settle=0.2, limit=20)
+    tap = p.tap
+    if len(tap.kexinits[0]) < 2 or len(tap.kexinits[1]) < 2:
+        raise RuntimeError("second KEXINIT pair not seen")
+    try:
+        ref = wiretap.negotiate(tap.kexinits[0][1], tap.kexinits[1][1], mac_needed_for_aead=True)
+    except wiretap.TapError as e:
+        raise RuntimeError("reordered lists cannot be incompatible: %s" % e)
+    desc["rekey_reference"] = ref
+    for name, t in (("client", p.tc), ("server", p.ts)):
+        client = name == "client"
+        if not t.is_active():
+            raise Violation(("C05", "rekey-failed", name), "%s went inactive in the re-key: %r" % (name, t.get_exception()), desc)
+        got = {
+            "kex": (tap.agreed_kex[0 if client else 1] or [None, None])[-1],
+            "hostkey": t.host_key_type,
+            "enc_c2s": t.local_cipher if client else t.remote_cipher,
+            "enc_s2c": t.remote_cipher if client else t.local_cipher,
+            "mac_c2s": t.local_mac if client else t.remote_mac,
+            "mac_s2c": t.remote_mac if client else t.local_mac,
+            "comp_c2s": t.local_compression if client else t.remote_compression,
+            "comp_s2c": t.remote_compression if client else t.local_compression,
+        }
+        for k, v in got.items():
+            if v != ref[k]:
+                raise Violation(("C05", "wrong-selection", name, k.split("_")[0], "in-rekey"),
+                                "re-key: %s selected %s=%r, RFC 4253 7.1 over the second KEXINIT pair gives %r" % (name, k, v, ref[k]), desc)
+    sim.probe("rekey_with_new_order_checked")
